@@ -145,7 +145,11 @@ Proof. reflexivity. Qed.
 (* what finalize computes, without any bound on the length: it always terminates (the padding loop
    needs at most 63 of its 130 units of fuel) and leaves the hasher freshly reset *)
 
-Lemma finalize_shape p full rest : InvS p full rest ->
+(* ... from ANY internal state: eight state words, any counter value, any 64-byte buffer; `rest` = the first
+   (count mod 64) bytes of the buffer.  Nothing here depends on how the state was reached. *)
+Lemma finalize_shape_gen p rest : length (buffer p) = 64%nat -> is8 (state p) ->
+  Z.land (w32 (count p)) 63 = Z.of_nat (length rest) -> wf_bytes rest = true ->
+  firstn (length rest) (buffer p) = rest ->
   exists p', finalize p
              = Some (flat_map (be_bytes 4)
                        (absorb_from (state p)
@@ -153,13 +157,13 @@ Lemma finalize_shape p full rest : InvS p full rest ->
                                 ++ be_bytes 8 (w64 (Z.shiftl (count p) 3)))), p')
              /\ InvS p' [] [].
 Proof.
-  intros HI. pose proof (InvS_pos p full rest HI) as Hpos.
-  destruct HI as (Hb & Hc & Hwf & (k & Hk) & Hr & Hst & Hf).
+  intros Hb H8 Hpos Hwfr Hf.
+  assert (length rest < 64)%nat as Hr.
+  { assert (0 <= w32 (count p)) as Hw by (unfold w32; apply Z.mod_pos_bound; lia).
+    rewrite (land63 _ Hw) in Hpos. lia. }
   destruct p as [st cnt buf]. cbn [state count buffer] in *.
   destruct (prefix_split buf rest Hf ltac:(lia)) as (y & tb & ->).
   rewrite app_length in Hb. cbn [length] in Hb.
-  apply wf_bytes_app_iff in Hwf as Hwf2. destruct Hwf2 as [Hwff Hwfr].
-  assert (is8 st) as H8 by (rewrite Hst; apply absorb_is8).
   assert (0 <= w64 (Z.shiftl cnt 3) < 18446744073709551616) as HLr by (unfold w64; apply Z.mod_pos_bound; lia).
   unfold finalize. cbn [state count buffer]. rewrite Hpos, Nat2Z.id, upd_app_at.
   replace (Z.of_nat (length rest) + 1) with (Z.of_nat (length (rest ++ [128]))) by (rewrite app_length; cbn [length]; lia).
@@ -219,6 +223,20 @@ Proof.
       rewrite !app_length, repeat_length, be_bytes_length. reflexivity.
 Qed.
 
+Lemma finalize_shape p full rest : InvS p full rest ->
+  exists p', finalize p
+             = Some (flat_map (be_bytes 4)
+                       (absorb_from (state p)
+                          (rest ++ [128] ++ repeat 0 (pad_zeros (length rest))
+                                ++ be_bytes 8 (w64 (Z.shiftl (count p) 3)))), p')
+             /\ InvS p' [] [].
+Proof.
+  intros HI. pose proof (InvS_pos p full rest HI) as Hpos.
+  destruct HI as (Hb & Hc & Hwf & (k & Hk) & Hr & Hst & Hf).
+  apply wf_bytes_app_iff in Hwf as [_ Hwfr].
+  apply finalize_shape_gen; [ exact Hb | rewrite Hst; apply absorb_is8 | exact Hpos | exact Hwfr | exact Hf ].
+Qed.
+
 Lemma finalize_correct p full rest : InvS p full rest -> Z.of_nat (length (full ++ rest)) < 2305843009213693952 ->
   exists p', finalize p = Some (fips_sha256 (full ++ rest), p') /\ InvS p' [] [].
 Proof.
@@ -255,4 +273,57 @@ Proof.
   - apply (update_inv init [] d init_inv Hwf).
   - exact Hlen.
   - rewrite E. reflexivity.
+Qed.
+
+(* ---- finalize from an arbitrary internal state (what the white-box op `setcount` of the harness exercises) ------- *)
+(* For every 8-word state st, every value c of the 64-bit counter and every 64-byte buffer: finalize compresses, starting
+   from st, the first (c mod 64) bytes of the buffer followed by 0x80, the FIPS 180-4 5.1.1 zero fill and the eight
+   big-endian bytes of (8 c) mod 2^64 - all eight bytes of the length field, for every c - and leaves a fresh hasher. *)
+Lemma finalize_any_state st c buf : is8 st -> length buf = 64%nat -> 0 <= c < 18446744073709551616 ->
+  wf_bytes (firstn (Z.to_nat (c mod 64)) buf) = true ->
+  exists p', finalize {| state := st; count := c; buffer := buf |}
+             = Some (flat_map (be_bytes 4)
+                       (absorb_from st (firstn (Z.to_nat (c mod 64)) buf ++ [128]
+                                          ++ repeat 0 (pad_zeros (Z.to_nat (c mod 64)))
+                                          ++ be_bytes 8 ((8 * c) mod 18446744073709551616))), p')
+             /\ Inv p' [].
+Proof.
+  intros H8 Hb Hc Hwf.
+  set (r := firstn (Z.to_nat (c mod 64)) buf) in *.
+  assert (length r = Z.to_nat (c mod 64)) as Hlr by (unfold r; rewrite firstn_length, Hb; lia).
+  destruct (finalize_shape_gen {| state := st; count := c; buffer := buf |} r) as (p' & E & HI).
+  - exact Hb.
+  - exact H8.
+  - cbn [count]. rewrite land63 by (unfold w32; lia). rewrite Hlr. unfold w32. lia.
+  - exact Hwf.
+  - cbn [buffer]. rewrite Hlr. reflexivity.
+  - exists p'. split; [ | exists [], []; split; [ reflexivity | exact HI ] ].
+    rewrite E. cbn [state count]. rewrite Hlr.
+    replace (w64 (Z.shiftl c 3)) with ((8 * c) mod 18446744073709551616); [ reflexivity | ].
+    rewrite Z.shiftl_mul_pow2 by lia. unfold w64. f_equal. lia.
+Qed.
+
+(* a hasher that has absorbed full ++ rest (full = whole blocks, rest = the buffered bytes) and whose counter is then
+   overwritten with any c that keeps the buffer position: finalize pads `rest` with the bit length 8 c *)
+Lemma finalize_after_set_count p full rest c : InvS p full rest -> 0 <= c < 18446744073709551616 ->
+  c mod 64 = Z.of_nat (length rest) ->
+  exists p', finalize (set_count p c)
+             = Some (flat_map (be_bytes 4)
+                       (absorb_from (absorb full) (rest ++ [128] ++ repeat 0 (pad_zeros (length rest))
+                                                    ++ be_bytes 8 ((8 * c) mod 18446744073709551616))), p')
+             /\ Inv p' [].
+Proof.
+  intros HI Hc Hm. destruct HI as (Hb & _ & Hwf & _ & Hr & Hst & Hf).
+  apply wf_bytes_app_iff in Hwf as [_ Hwfr].
+  assert (w64 c = c) as Hw by (unfold w64; lia).
+  destruct (finalize_shape_gen (set_count p c) rest) as (p' & E & HI).
+  - exact Hb.
+  - cbn [set_count state]. rewrite Hst. apply absorb_is8.
+  - cbn [set_count count]. rewrite Hw, land63 by (unfold w32; lia). unfold w32. lia.
+  - exact Hwfr.
+  - exact Hf.
+  - exists p'. split; [ | exists [], []; split; [ reflexivity | exact HI ] ].
+    rewrite E. cbn [set_count state count]. rewrite Hst, Hw.
+    replace (w64 (Z.shiftl c 3)) with ((8 * c) mod 18446744073709551616); [ reflexivity | ].
+    rewrite Z.shiftl_mul_pow2 by lia. unfold w64. f_equal. lia.
 Qed.
